@@ -321,6 +321,9 @@ class Interp:
             return VExt(e.id)
         if e.id in EXT_ROOTS:
             return VExt(e.id)
+        import builtins
+        if hasattr(builtins, e.id):
+            return VExt(e.id)       # a builtin the engine may or may not have a model for
         raise PyRaise(mkexc("NameError"))
 
     def e_JoinedStr(self, e, env):
@@ -449,7 +452,22 @@ class Interp:
         return self.lib.make_set(self, self.lib.comprehension(self, e, env, "list"))
 
     def e_DictComp(self, e, env):
-        raise Undecided("dict comprehension")
+        if len(e.generators) != 1:
+            raise Undecided("nested dict comprehension")
+        gen = e.generators[0]
+        src = self.eval(gen.iter, env)
+        items = self.lib.iter_concrete(self, src) if not isinstance(src, VObj) else None
+        if items is None and isinstance(src, VObj) and src.cls == "zip":
+            items = [VTuple([a, b]) for a, b in zip(src.f["a"].items, src.f["b"].items)]
+        if items is None:
+            raise Undecided("dict comprehension over a symbolic iterable")
+        ents = []
+        for x in items:
+            sub = Env(env)
+            self.assign(gen.target, x, sub)
+            if all(self.ctx.branch(self.truth(self.eval(c, sub))) for c in gen.ifs):
+                ents.append([z3.BoolVal(True), self.eval(e.key, sub), self.eval(e.value, sub)])
+        return VDict(ents)
 
     def e_Call(self, e, env):
         # logging calls are dropped without evaluating their arguments (DESIGN §2.1)
